@@ -59,6 +59,8 @@ Lexemes(fam) ==
            ROpen, RClose, R01, R1x, R2, ClsDot, ClsStar>>
     [] fam = "cls" ->
          <<P(cA), P(cB), P(cSEP), P(cQ), ClsA, ClsNA, ClsAB, ClsSep, P(cKIN), FlagI, ROpen, R12, R1>>
+    [] fam = "root" ->   \* repetitions that root the expression (lower bound of at least one) and what follows them
+         <<P(cA), P(cSEP), P(cSTAR), Tree, ROpen, R1, R1x, R12>>
     [] fam = "mini" ->
          <<P(cA), P(cSEP), P(cSTAR), Tree, Open, Comma, Close, ROpen, R12, R01>>
     [] fam = "text" ->   \* every string over the meta-characters, the contextual ones, a separator and letters
@@ -83,6 +85,7 @@ Lexemes(fam) ==
            L(<<cLB, cBANG, cA, cDASH, cB, cRB>>, 0), L(<<cLB, cA, cBS, cRB, cRB>>, 0), L(<<cLB, cBS, cDASH, cRB>>, 0),
            L(<<cLB, cA, cSEP, cRB>>, 0), L(<<cBS, cSTAR>>, 0), L(<<cBS, cLB>>, 0), L(<<cBS, cBS>>, 0),
            L(<<cBS, cLP>>, 0), L(<<cBS, cRP>>, 0), L(<<cLB, cLP, cRB>>, 0),     \* parentheses: escaped, in a class
+           L(<<cLB, cA, cUA, cRB>>, 0),                                          \* one letter in both cases
            FlagI, Open, Comma, Close>>
     [] fam = "bnd" ->    \* every way of writing repetition bounds (defaults, open ends, equal, reversed, zeros)
          <<P(cA), P(cSEP), ROpen, RClose, L(<<cCOL, cGT>>, 5), L(<<cCOL, 48, cGT>>, 5), R1, L(<<cCOL, 51, cGT>>, 5),
